@@ -116,8 +116,15 @@ func runFramer(sc *FramerScenario) *FramerResult {
 			prev(s, e)
 		}
 	}
+	// applications commonly dispatch through the library's ServeMux: whatever topic the broker's bytes decode to
+	// goes through filter matching as well (handlers that do nothing; the hand-over record is taken before)
+	mux := &mqtt.ServeMux{}
+	for _, f := range []string{"#", "+", "+/+", "a/#", "a/+/c", "$SYS/#"} {
+		_ = mux.HandleFunc(f, func(*mqtt.Message) {})
+	}
 	cli.Handle(mqtt.HandlerFunc(func(m *mqtt.Message) {
 		res.HO = append(res.HO, FramerMsg{T: ints([]byte(m.Topic)), P: ints(m.Payload), Q: int(m.QoS), R: m.Retain, D: m.Dup, ID: int(m.ID)})
+		mux.Serve(m)
 	}))
 	if _, err := cli.Connect(ctx, "framer"); err != nil {
 		res.Res = "connect: " + err.Error()
